@@ -1,4 +1,5 @@
 import Pyunicorn.Lemmas.VisibilityExt
+import Pyunicorn.Generated.ArithC14
 /-!
 # C14 — visibility graphs realise the geometric visibility criterion
 
@@ -914,5 +915,46 @@ example : (List.range 4).map (retClose 4 (adjMat 4 [(0, 1), (1, 2), (2, 3)]))
     = [none, some 1, some (2 / 3), some (1 / 2)] := by decide +kernel
 example : (List.range 4).map (advClose 4 (adjMat 4 [(0, 1), (1, 2)]))
     = [some 0, some 0, some 0, none] := by decide +kernel
+
+/-! ## what `pathLen` (the specification of `Network.path_lengths`) means -/
+
+/-- **`pathLen` is the least number of links of a walk** between two nodes: `some d` — a walk
+of `d` links exists and none with fewer; `none` (`inf`) — no walk with fewer than `N` links. -/
+theorem path_lengths_are_least_walk_lengths (N : Nat) (A : List (List Bool)) (i j : Nat)
+    (hi : i < N) (hj : j < N) :
+    (∀ d, pathLen N A i j = some d →
+      d < N ∧ ReachLe N A i j d ∧ ∀ k, k < d → ¬ ReachLe N A i j k) ∧
+    (pathLen N A i j = none → ∀ k, k < N → ¬ ReachLe N A i j k) :=
+  pathLen_spec N A i j hi hj
+
+example : ReachLe 4 (adjMat 4 [(0, 1), (1, 2)]) 0 2 2 :=
+  .step 1 2 1 (.step 0 1 0 (.here 0 (by decide)) (by decide) (by decide +kernel)) (by decide)
+    (by decide +kernel)
+
+/-! ## slice bounds and normalisations regenerated from `visibility_graph.py`
+
+`translate/arith_C14.json` → `Pyunicorn.Generated.ArithC14` (rewritten from the current
+source on every run): the bounds of `A[i, :i]`, `A[i, i:]`, `path_lengths[i, :i]`,
+`path_lengths[i, i+1:]`, `float(self.N - 1)` and both `norm = d * (d - 1) / 2.`.  The
+theorem states that the model's measures are built with exactly these expressions. -/
+
+theorem model_uses_source_expressions (N : Nat) (A : List (List Bool)) (i d : Nat) :
+    retDeg A i = ((A.getD i []).take (Generated.ArithC14.retDegSliceStop (i : Int)).toNat).count true ∧
+    advDeg A i = ((A.getD i []).drop (Generated.ArithC14.advDegSliceStart (i : Int)).toNat).count true ∧
+    retClose N A i
+      = closeOf ((List.range (Generated.ArithC14.retSliceStop (i : Int)).toNat).map (pathLen N A i)) ∧
+    advClose N A i
+      = closeOf ((List.range' (Generated.ArithC14.advSliceStart (i : Int)).toNat
+          (N - (Generated.ArithC14.advSliceStart (i : Int)).toNat)).map (pathLen N A i)) ∧
+    pairNorm d = Generated.ArithC14.retNorm (d : Rat) ∧ pairNorm d = Generated.ArithC14.advNorm (d : Rat) ∧
+    (1 ≤ N → (((N - 1 : Nat) : Int) : Rat) = ((Generated.ArithC14.bcDen (N : Int) : Int) : Rat)) := by
+  have e : ((i : Int) + 1).toNat = i + 1 := by omega
+  refine ⟨by simp [retDeg, Generated.ArithC14.retDegSliceStop], by simp [advDeg, Generated.ArithC14.advDegSliceStart],
+    by simp [retClose, Generated.ArithC14.retSliceStop], by simp [advClose, Generated.ArithC14.advSliceStart, e],
+    by simp [pairNorm, Generated.ArithC14.retNorm], by simp [pairNorm, Generated.ArithC14.advNorm], ?_⟩
+  intro h
+  simp only [Generated.ArithC14.bcDen]
+  congr 1
+  omega
 
 end Pyunicorn.Visibility
